@@ -27,6 +27,7 @@ def nf_tree(fn, ctx):
         for sub in ast.walk(g):
             if isinstance(sub, equiv.FuncNode):
                 equiv.split_webs(sub)
+        equiv.find_idiom(g)
         equiv.forward_substitute(g)
         equiv.coalesce_copies(g)
         equiv._StripMsg().visit(g)
